@@ -7,8 +7,8 @@ LEVEL = "exploration"
 def plan(tier, seed):
     quick = tier == "quick"
     net = runner.net_path("material", 1)
-    shards = [dict(bin=("opt", "c10"), args=["--cases", 50 if quick else 4000, "--dfs-scripts", 1 if quick else 40,
-                                             "--dfs-points", 24 if quick else 0, "--tree-cases", 8 if quick else 500])
+    shards = [dict(bin=("opt", "c10"), args=["--cases", 50 if quick else 2500, "--dfs-scripts", 1 if quick else 40,
+                                             "--dfs-points", 24 if quick else 0, "--tree-cases", 8 if quick else 300])
               for _ in range(16)]
     return dict(
         builds=[("opt", "c10")],
